@@ -357,6 +357,11 @@ def curated():
     big_ = fac("k", ["yes", "no"], derive("within", ["e"], fn=lambda l, x: (x[0] == "b") == (l == "yes"), levels=["yes", "no"], dep_levels=[A3]))
     out.append(D("repeat-within+transition-crossed-min7", [e3, big_, transition_rep("s", "k", ["yes", "no"])],
                  repeat(cross(["e", "k", "s"], ["k", "s"]), [["MinimumTrials", 7]]), ["repeat", "within", "transition", "derived-crossed", "preamble", "mintrials", "partial"]))
+    # Sequential given to a block whose length is not a multiple of the factor's number of levels, the block then repeated: the order starts over per repetition
+    sq3 = fac("q", ["p", "q", "r"])
+    out.append(D("nest-inner-sequential-3in2", [c2, d2, sq3], nest(cross(["c"], ["c"]), cross(["d", "q"], ["d"], [["Sequential", "q"]])), ["nest", "sequential", "scope-inner"]))
+    out.append(D("repeat-inner-sequential-3in2", [d2, sq3], repeat(cross(["d", "q"], ["d"], [["Sequential", "q"]]), [["MinimumTrials", 4]]), ["repeat", "sequential", "scope-inner", "mintrials"]))
+    out.append(D("repeat-own-sequential-3in2", [d2, sq3], repeat(cross(["d", "q"], ["d"]), [["MinimumTrials", 4], ["Sequential", "q"]]), ["repeat", "sequential", "scope-outer", "mintrials"]))
     # --- continuous factors next to the discrete design (C08, C20 only: SC.design_space(continuous=True))
     wdu_ = fac("d", [["x", 2], ["y", 1]])
     for nz in (1, 2):
